@@ -297,10 +297,14 @@ def git_all_objects(path):
 
 
 def git_fsck_connectivity(path):
+    """does C git find every object the refs reach?  Only connectivity complaints count (missing /
+    unreadable objects, broken links, refs to absent ids), not e.g. a branch that is not a commit."""
     p = git(path, "fsck", "--connectivity-only", "--no-dangling", "--no-progress", check=False)
     txt = (p.stdout + p.stderr).decode("utf-8", "replace")
-    bad = [ln for ln in txt.splitlines() if ln.startswith(("missing", "broken", "error", "fatal", "dangling")) or "invalid sha1 pointer" in ln]
-    return p.returncode == 0 and not bad, txt.strip()
+    marks = ("missing ", "broken link", "invalid sha1 pointer", "unable to read", "bad object", "bad sha1", "corrupt",
+             "could not read", "fatal:")
+    bad = [ln for ln in txt.splitlines() if any(m in ln for m in marks)]
+    return not bad, txt.strip()
 
 
 # --------------------------------------------------------------------------- minimal pack parser
